@@ -167,3 +167,16 @@ contract('gnpy.topology.request.compare_reqs', name='gnpy.topology.request.compa
          # two requests may be merged only when every field that decides route, mode and spectrum is the same
          ensures=[('identical_in_every_deciding_field', f'iff(result, {_SAME})')],
          use_at_calls=False, modifies=[])
+
+# a request built without a route list gets a list of its own: the class-level default list is shared by nobody
+# (compute_path_dsjctn appends the destination to req.nodes_list / 'STRICT' to req.loose_list of every request)
+_DEFAULTS = dct(request_id=const(None), nodes_list=lst(), loose_list=lst(), bidir=const(False), effective_freq_slot=const(None))
+contract('gnpy.topology.topology_parameters.BaseParams.update_attr', props=['C16'],
+         params={'self': obj('RequestParams', default_values=_DEFAULTS), 'kwargs': dct_k({'request_id': string(), 'bidir': boolean()})},
+         requires=[('id_not_blank', "kwargs['request_id'] != ''")],     # blank texts count as not given
+         ensures=[('own_route_lists', "self.nodes_list is not self.default_values['nodes_list'] and "
+                                      "self.loose_list is not self.default_values['loose_list'] and self.nodes_list is not self.loose_list "
+                                      "and len(self.nodes_list) == 0 and len(self.loose_list) == 0"),
+                  ('given_values_taken', "self.request_id == kwargs['request_id'] and iff(self.bidir, kwargs['bidir']) and "
+                                         "self.effective_freq_slot is None")],
+         modifies=['self.*'], use_at_calls=False)
